@@ -523,6 +523,56 @@ pub fn run_c11(ctx: &mut Ctx) -> R {
                 return viol("meta-mismatch", format!("blocks read back differ from those written (first difference at block {i:?} of {})", blocks.len()));
             }
             probe("c11_roundtrip_ok");
+            // the other readers of the same bytes must accept them too and agree
+            let others = catch_unwind(AssertUnwindSafe(|| {
+                let info = flac_codec::metadata::read_info(Cursor::new(&media)).map_err(|e| format!("{e:?}"));
+                let list = BlockList::read(Cursor::new(&media)).map(|bl| blocks_of(&bl)).map_err(|e| format!("{e:?}"));
+                let vc = flac_codec::metadata::read_block::<_, VorbisComment>(Cursor::new(&media)).map_err(|e| format!("{e:?}"));
+                let pic = flac_codec::metadata::read_block::<_, Picture>(Cursor::new(&media)).map_err(|e| format!("{e:?}"));
+                (info, list, vc, pic)
+            }));
+            let Ok((info, list, vc, pic)) = others else {
+                let (loc, msg) = take_panic().unwrap_or_default();
+                let v = crate::classify_panic(&loc, &msg);
+                return viol(v.class, format!("read_info / BlockList::read / read_block on accepted output: {msg}"));
+            };
+            match info {
+                Err(e) => return viol("meta-mismatch", format!("write_blocks reported success and read_blocks accepts the output, but read_info rejects it: {e} ({} blocks)", blocks.len())),
+                Ok(si) => {
+                    if Block::from(si) != blocks[0] {
+                        return viol("meta-mismatch", "read_info returns a STREAMINFO different from the one written".to_string());
+                    }
+                }
+            }
+            match list {
+                Err(e) => return viol("meta-mismatch", format!("read_blocks accepts the output but BlockList::read rejects it: {e}")),
+                Ok(l) => {
+                    if l.len() != blocks.len() || l[0] != blocks[0] {
+                        return viol("meta-mismatch", format!("BlockList::read sees {} blocks, {} were written", l.len(), blocks.len()));
+                    }
+                }
+            }
+            let first_vc = blocks.iter().find_map(|b| if let Block::VorbisComment(c) = b { Some(c.clone()) } else { None });
+            match vc {
+                Err(e) => return viol("meta-mismatch", format!("read_block::<VorbisComment> rejects accepted output: {e}")),
+                Ok(v) => {
+                    if v != first_vc {
+                        return viol("meta-mismatch", "read_block::<VorbisComment> does not return the first comment block written".to_string());
+                    }
+                }
+            }
+            let first_pic = blocks.iter().find_map(|b| if let Block::Picture(c) = b { Some(c.clone()) } else { None });
+            match pic {
+                Err(e) => return viol("meta-mismatch", format!("read_block::<Picture> rejects accepted output: {e}")),
+                Ok(v) => {
+                    if v != first_pic {
+                        return viol("meta-mismatch", "read_block::<Picture> does not return the first picture block written".to_string());
+                    }
+                }
+            }
+            if blocks.len() == 1 {
+                probe("c11_streaminfo_is_the_only_block");
+            }
             Ok(())
         }
     }
